@@ -27,6 +27,11 @@ pub struct Peer {
     pub sent: Vec<u8>,
     pub dropped: bool,
     pub pump_error: Option<String>,
+    /// Re-frame side-band data (see `normalize`): needed whenever a pack is relayed, because the server cuts its
+    /// child's output into side-band packets as it happens to arrive, and writes wall-clock dependent progress text.
+    pub reframe_sideband: bool,
+    raw: Vec<u8>,
+    band1: Vec<u8>,
 }
 pub type SharedPeer = Arc<Mutex<Peer>>;
 
@@ -47,7 +52,7 @@ impl Peer {
             let fl = libc::fcntl(fd, libc::F_GETFL);
             libc::fcntl(fd, libc::F_SETFL, fl | libc::O_NONBLOCK);
         }
-        Ok(Arc::new(Mutex::new(Peer { child, stdin, stdout, buf: vec![], pos: 0, eof: false, read_plan, write_plan, ch, received: 0, sent: vec![], dropped: false, pump_error: None })))
+        Ok(Arc::new(Mutex::new(Peer { child, stdin, stdout, buf: vec![], pos: 0, eof: false, read_plan, write_plan, ch, received: 0, sent: vec![], dropped: false, pump_error: None, reframe_sideband: false, raw: vec![], band1: vec![] })))
     }
     fn state(&self) -> St {
         let pid = self.child.id();
@@ -93,7 +98,11 @@ impl Peer {
                     return n;
                 }
                 Ok(k) => {
-                    self.buf.extend_from_slice(&tmp[..k]);
+                    if self.reframe_sideband {
+                        self.raw.extend_from_slice(&tmp[..k]);
+                    } else {
+                        self.buf.extend_from_slice(&tmp[..k]);
+                    }
                     n += k;
                 }
                 Err(e) if e.kind() == io::ErrorKind::WouldBlock => return n,
@@ -106,8 +115,95 @@ impl Peer {
             }
         }
     }
+    /// The server's stream is pkt-line framed throughout. Two things in it depend on timing and not on the
+    /// repositories: how pack data (band 1) is cut into side-band packets, and the progress text (band 2). Band 1 runs
+    /// are merged and cut again at seeded sizes (1..=65515 bytes of data per packet) — the simulator, not the
+    /// kernel's scheduling of two processes, decides the packetisation; band 2 packets are dropped, which is what a
+    /// server honouring `no-progress` sends. Everything else passes through byte for byte.
+    fn normalize(&mut self) {
+        let mut out = std::mem::take(&mut self.buf);
+        let raw = std::mem::take(&mut self.raw);
+        let mut p = 0;
+        loop {
+            if p + 4 > raw.len() {
+                break;
+            }
+            let len = match std::str::from_utf8(&raw[p..p + 4]).ok().and_then(|h| usize::from_str_radix(h, 16).ok()) {
+                Some(l) => l,
+                None => {
+                    // not pkt-line framed (cannot happen with upload-pack): pass the rest through
+                    self.flush_band1(&mut out);
+                    out.extend_from_slice(&raw[p..]);
+                    p = raw.len();
+                    break;
+                }
+            };
+            if len < 4 {
+                self.flush_band1(&mut out);
+                out.extend_from_slice(&raw[p..p + 4]);
+                p += 4;
+                continue;
+            }
+            if p + len > raw.len() {
+                break; // incomplete line: wait for more
+            }
+            let payload = &raw[p + 4..p + len];
+            match payload.first() {
+                Some(1) => self.band1.extend_from_slice(&payload[1..]),
+                Some(2) => {
+                    // (how many there are depends on timing: note the fact, not the number)
+                    if !self.ch.faults.contains_key("progress-packets-dropped") {
+                        self.ch.note("progress-packets-dropped");
+                    }
+                }
+                _ => {
+                    self.flush_band1(&mut out);
+                    out.extend_from_slice(&raw[p..p + len]);
+                }
+            }
+            p += len;
+        }
+        self.raw = raw[p..].to_vec();
+        if self.eof {
+            self.flush_band1(&mut out);
+            out.extend_from_slice(&self.raw);
+            self.raw.clear();
+        }
+        self.buf = out;
+    }
+    fn flush_band1(&mut self, out: &mut Vec<u8>) {
+        let data = std::mem::take(&mut self.band1);
+        let mut p = 0;
+        while p < data.len() {
+            let left = data.len() - p;
+            let want = match self.ch.decide(6, |r| r.usize_below(6)) {
+                0 => 65515,
+                1 => 8192,
+                2 => 1000,
+                3 => 1 + (left % 97),
+                4 => 1,
+                _ => 32_000,
+            };
+            // tiny packets only for a stretch, or a large pack costs millions of them
+            let n = if want == 1 && left > 64 { 1 + (p % 3) } else { want }.min(left);
+            out.extend_from_slice(format!("{:04x}", n + 5).as_bytes());
+            out.push(1);
+            out.extend_from_slice(&data[p..p + n]);
+            p += n;
+        }
+        if !data.is_empty() {
+            self.ch.note("sideband-reframed");
+        }
+    }
+
     /// Collect everything the server says until it waits for us (or is gone).
     fn pump(&mut self) {
+        self.pump_raw();
+        if self.reframe_sideband {
+            self.normalize();
+        }
+    }
+    fn pump_raw(&mut self) {
         let t0 = std::time::Instant::now();
         loop {
             if self.eof {
